@@ -388,8 +388,11 @@ namespace chaiscript {
                                         assert(children.size() == 1);
                                         chaiscript::eval::detail::Scope_Push_Pop spp(t_ss);
 
-                                        int i = start_int;
-                                        t_ss.add_object(id, var(&i));
+                                        // the counter is owned by the Boxed_Value: a lambda capturing the loop variable
+                                        // may outlive this frame
+                                        const Boxed_Value loop_var = var(start_int);
+                                        int &i = *static_cast<int *>(loop_var.get_ptr());
+                                        t_ss.add_object(id, loop_var);
 
                                         try {
                                           for (; i < end_int; ++i) {
